@@ -23,7 +23,7 @@ func (c fmtCase) fields(req string) []string {
 }
 
 var modPool = []string{"basename", "dirname", "%.txt", "%txt", "%.gz", "s/a/b/", "s/.txt//", "s/data/out/", "%", "s/x/y/z", ".csv", ".tar.gz", "%s/a/b/", "s//x/", "basename|%.txt", "dirname|basename", "s/a/b/|s/b/c/", "%.txt|%.b"}
-var pathPool = []string{"a.txt", "data/a.txt", "data/sub/a.b.txt", "../up/a.txt", "/abs/dir/a.txt", "x", "dir.d/file", "a/b/c/d/e.tar.gz", "../../two/up.txt", "__parent__x/y.txt", "s/a/b/c.txt"}
+var pathPool = []string{"a.txt", "data/a.txt", "data/sub/a.b.txt", "../up/a.txt", "/abs/dir/a.txt", "x", "dir.d/file", "a/b/c/d/e.tar.gz", "../../two/up.txt", "__parent__x/y.txt", "s/a/b/c.txt", "matrix.txt", "data/input.txt", "x.t.txt", "lib.gz.gz", "tt", ".txt", "a..txt"}
 var valPool = []string{"1", "abc", "a.txt", "x/y", "0.5", "A_B-c", "%.txt", "s/a/b/", "a b", "$HOME", "{p:x}", "}", "{"}
 var litPool = []string{" ", "cat ", " > ", "; echo ", "awk '{print $1}' ", " | sort ", "x{", "}y", "{", "}", "{i:", "{{", "$(", ")", "{q:z}", "{i:}", "\\", "'", "\""}
 
@@ -155,6 +155,26 @@ func checkC15(ctx *Ctx) {
 		}
 	}
 	ctx.Res.Extra["spec_differs"] = specDiffers
+	// every path of the pool x every modifier of the pool, and the suffix trim on stems that end in
+	// characters of the suffix / are shorter than it / equal to it
+	for _, p := range pathPool {
+		for _, m := range modPool {
+			ctx.diff(w, "c15.mods", true, "mods", p, strings.Join(strings.Split(m, "|"), US))
+		}
+	}
+	for _, stem := range []string{"", "a", "t", "x", ".", "x.", "tt", "a.t", "txt", "d/t.x", "d.txt/f"} {
+		for _, suf := range []string{".txt", "t", "txt", ".t", "x.", "/f", "."} {
+			real := w.Ask("mods", stem+suf, "%"+suf)
+			ctx.diff(w, "c15.mods", true, "mods", stem+suf, "%"+suf)
+			want := stem
+			if stem == "" {
+				want = suf // the trim needs a strictly longer path
+			}
+			if real != want {
+				ctx.Res.Violate(Violation{What: fmt.Sprintf("applyPathModifiers(%q, %%%s) = %q, the documented suffix trim gives %q", stem+suf, suf, real, want), Class: "c15.trim", Witness: []string{stem + suf, "%" + suf}})
+			}
+		}
+	}
 	// modifiers, placeholder regex, port discovery, SetOut, default path
 	for i := 0; i < n && ctx.TimeLeft(); i++ {
 		p := pathPool[r.Intn(len(pathPool))]
